@@ -64,7 +64,7 @@ def rule_transport(ctx: Ctx, po: PermOps, mo: MeshOps, fname: str, cells: List[s
     it = lp.iter
     k_var = unparse(lp.target)
     if not (isinstance(it, ast.Call) and call_name(it) == ("range",) and len(it.args) == 1 and unparse(it.args[0]) == "4"):
-        ctx.violation("C18-R1", fi, lp, f"the side conditions are tried in `{unparse(it)}` orientations; all four rotations are needed")
+        ctx.violation("C18-R1", fi, lp, f"the side conditions are tried in `{unparse(it)}` orientations; all four rotations are needed", robust=True)
         return
     ctx.ok("C18-R1", fi.where, "loop over the four rotations", lp, fi)
     # ---- forward transport at the end of each iteration
@@ -85,7 +85,7 @@ def rule_transport(ctx: Ctx, po: PermOps, mo: MeshOps, fname: str, cells: List[s
                     pm, cm = mo.maps("rotate", consts)
                     r_point = (pm, cm, st)
                 else:
-                    ctx.violation("C18-R1", fi, st, f"the pattern is advanced by `{unparse(val)}`, not by a rotation")
+                    ctx.violation("C18-R1", fi, st, f"the pattern is advanced by `{unparse(val)}`, not by a rotation", robust=True)
                     return
             elif isinstance(tgt, ast.Name) and tgt.id in cells:
                 cell_updates[tgt.id] = pair_map(fi, val, tgt.id, n_name, "X", "Y")
@@ -100,7 +100,7 @@ def rule_transport(ctx: Ctx, po: PermOps, mo: MeshOps, fname: str, cells: List[s
             if isinstance(t, ast.Call) and isinstance(t.func, ast.Attribute) and t.func.attr == cond_name:
                 cond_stmt = st
     if r_point is None:
-        ctx.violation("C18-R1", fi, lp, "the pattern is not rotated between the orientations")
+        ctx.violation("C18-R1", fi, lp, "the pattern is not rotated between the orientations", robust=True)
         return
     pm, cm, rst = r_point
     if cond_stmt is None:
@@ -108,16 +108,16 @@ def rule_transport(ctx: Ctx, po: PermOps, mo: MeshOps, fname: str, cells: List[s
     # the condition must be asked of the rotated pattern with the transported cells
     call = cond_stmt.test
     if unparse(call.func.value) != patt_var or [unparse(a) for a in call.args] != cells:
-        ctx.violation("C18-R1", fi, cond_stmt, f"side conditions are evaluated as `{unparse(call)}`; they must see the rotated pattern `{patt_var}` and the transported cell(s) {cells}")
+        ctx.violation("C18-R1", fi, cond_stmt, f"side conditions are evaluated as `{unparse(call)}`; they must see the rotated pattern `{patt_var}` and the transported cell(s) {cells}", robust=True)
         return
     if set(cell_updates) != set(cells):
-        ctx.violation("C18-R1", fi, lp, f"cell variable(s) {sorted(set(cells) - set(cell_updates))} are not transported when the pattern is rotated")
+        ctx.violation("C18-R1", fi, lp, f"cell variable(s) {sorted(set(cells) - set(cell_updates))} are not transported when the pattern is rotated", robust=True)
         return
     for nm, m in cell_updates.items():
         if m == cm:
             ctx.ok("C18-R1", fi.where, f"`{nm}` is transported by (x, y) -> ({m.a!r}, {m.b!r}) = the cell map of the rotation applied to the pattern", rst, fi)
         else:
-            ctx.violation("C18-R1", fi, lp, f"`{nm}` is transported by (x, y) -> ({m.a!r}, {m.b!r}) but the pattern is rotated with cell map (x, y) -> ({cm.a!r}, {cm.b!r}): pattern and cell end up in different frames")
+            ctx.violation("C18-R1", fi, lp, f"`{nm}` is transported by (x, y) -> ({m.a!r}, {m.b!r}) but the pattern is rotated with cell map (x, y) -> ({cm.a!r}, {cm.b!r}): pattern and cell end up in different frames", robust=True)
     # the order inside the loop: condition first, then rotate (so iteration k sees r^k)
     idx_cond, idx_rot = lp.body.index(cond_stmt), lp.body.index(rst)
     if idx_cond > idx_rot:
@@ -255,7 +255,7 @@ def rule_d1(ctx: Ctx) -> None:
             raise AnalysisError(f"permuta.misc.{nm} vanished")
         dirs[nm] = const_value(misc.assigns[nm])
     if len(set(dirs.values())) != 5:
-        ctx.violation("C18-D1", "permuta.misc:DIR_*", misc.assign_nodes["DIR_EAST"], f"direction constants are not pairwise distinct: {dirs}", file=misc.relpath)
+        ctx.violation("C18-D1", "permuta.misc:DIR_*", misc.assign_nodes["DIR_EAST"], f"direction constants are not pairwise distinct: {dirs}", file=misc.relpath, robust=True)
     else:
         ctx.ok("C18-D1", "permuta.misc:DIR_*", f"five pairwise distinct direction constants {dirs}")
     # x, y = pos
@@ -304,7 +304,7 @@ def rule_d1(ctx: Ctx) -> None:
         if cells == want[d]:
             ctx.ok("C18-D1", fi.where, f"{d} shades the two sub-cells to the {side[d]} of the new point", node, fi)
         else:
-            ctx.violation("C18-D1", fi, node, f"{d} shades {show_cells(cells)}; the two sub-cells on that side of the new point are {show_cells(want[d])}")
+            ctx.violation("C18-D1", fi, node, f"{d} shades {show_cells(cells)}; the two sub-cells on that side of the new point are {show_cells(want[d])}", robust=True)
         seen.add(d)
 
     seen = set()
@@ -341,7 +341,7 @@ def rule_d1(ctx: Ctx) -> None:
     else:
         raise AnalysisError(f"{fi.where}: direction dispatch not recognised")
     if seen != set(want):
-        ctx.violation("C18-D1", fi, (chain or tables)[0], f"directions {sorted(set(want) - seen)} are not handled")
+        ctx.violation("C18-D1", fi, (chain or tables)[0], f"directions {sorted(set(want) - seen)} are not handled", robust=True)
     rets = [st for st in fi.body if isinstance(st, ast.Return)]
     if rets and "self._add_point_new_perm" in unparse(rets[0].value) and f"({x}, {y})" in unparse(rets[0].value).replace("self._add_point_new_perm", ""):
         pass
@@ -782,7 +782,7 @@ def rule_n2(ctx: Ctx) -> None:
             if all(a == b for a, b in sides) and {a for a, _ in sides} in ({A, Bm}, {A, B}):
                 adjacency += 1
                 continue
-            ctx.violation("C18-N2", f, c, f"`{raw}` does not say that {p2} is the cell directly below {p1} (same column, one row lower)")
+            ctx.violation("C18-N2", f, c, f"`{raw}` does not say that {p2} is the cell directly below {p1} (same column, one row lower)", robust=True)
             return
         try:
             t = canon(c)
@@ -795,11 +795,11 @@ def rule_n2(ctx: Ctx) -> None:
             if len(t[1]) == 2 and pn[0][1:] == (Am, Bm) and len(edge) == 1 and edge[0][1:4] in (("==", A, "0"), ("<", Am, "0"), ("<", A, "1"), ("<=", A, "0"), ("<=", Am, "-1")):
                 point += 1
                 continue
-            ctx.violation("C18-N2", f, c, f"`{raw}` does not test that the point south-west of {p1} is (pos1[0]-1, pos1[1]-1)")
+            ctx.violation("C18-N2", f, c, f"`{raw}` does not test that the point south-west of {p1} is (pos1[0]-1, pos1[1]-1)", robust=True)
             return
         got.append((t, c))
     if adjacency != 1 or point != 1:
-        ctx.violation("C18-N2", f, rets[0], f"conditions on the point ({point}) / on the two cells being stacked ({adjacency}) are missing or repeated")
+        ctx.violation("C18-N2", f, rets[0], f"conditions on the point ({point}) / on the two cells being stacked ({adjacency}) are missing or repeated", robust=True)
         return
     bad = False
     remaining = dict(want)
@@ -812,14 +812,14 @@ def rule_n2(ctx: Ctx) -> None:
         # same kind, other cells?
         kind = [k for k, w in want.items() if w[0] == t[0] and (t[0] != "exists" or w[1][0] == t[1][0] or {w[1][0], t[1][0]} == {"differ", "alike"})]
         if kind:
-            ctx.violation("C18-N2", f, c, f"side condition `{unparse(c)[:110]}` is not the lemma's condition \"{kind[0]}\" (with the point at ({p1}[0]-1, {p1}[1]-1), {p1} = (A, B), {p2} = (A, B-1))")
+            ctx.violation("C18-N2", f, c, f"side condition `{unparse(c)[:110]}` is not the lemma's condition \"{kind[0]}\" (with the point at ({p1}[0]-1, {p1}[1]-1), {p1} = (A, B), {p2} = (A, B-1))", robust=True)
             bad = True
         else:
             raise AnalysisError(f"{f.where}: extra condition `{unparse(c)[:70]}` not part of the lemma; not decided")
     if bad:
         return
     if remaining:
-        ctx.violation("C18-N2", f, rets[0], f"the lemma's condition(s) {sorted(remaining)} are not checked")
+        ctx.violation("C18-N2", f, rets[0], f"the lemma's condition(s) {sorted(remaining)} are not checked", robust=True)
         return
     ctx.ok("C18-N2", f.where, "the point is present and the two cells are stacked east of it", rets[0], f)
     asserts = [st for st in f.body if isinstance(st, ast.Assert)]
